@@ -345,6 +345,7 @@ func ReadWeatherCSV(VWDAT string, startyear int, g *GlobalVarsMain, s *WeatherDa
 	T := 0
 	yrz := 0
 	first := true
+	var lastDate time.Time // date of the previous record
 	for scanner.Scan() {
 		line := scanner.Text()
 		T++
@@ -416,9 +417,11 @@ func ReadWeatherCSV(VWDAT string, startyear int, g *GlobalVarsMain, s *WeatherDa
 			T = 1
 			yrz = yrz + 1
 		}
-		if d.datetime.YearDay() != T {
+		// the day counter restarts on 1 January: days missing at the end of a year, or whole years, only show in the date
+		if d.datetime.YearDay() != T || (!lastDate.IsZero() && !d.datetime.Equal(lastDate.AddDate(0, 0, 1))) {
 			return fmt.Errorf("%s Failed to parse file: %s, error: missing days", g.LOGID, VWDAT)
 		}
+		lastDate = d.datetime
 		if yrz > len(s.JAR) {
 			yrz--
 			break
@@ -482,6 +485,7 @@ func ReadWeatherCZ(VWDAT string, startyear int, g *GlobalVarsMain, s *WeatherDat
 	T := 0
 	yrz := 0
 	first := true
+	var lastDate time.Time     // date of the previous record
 	currentCO2 := s.CO2KONZ[0] // baseCO2 for first year
 	for scanner.Scan() {
 		line := scanner.Text()
@@ -554,9 +558,11 @@ func ReadWeatherCZ(VWDAT string, startyear int, g *GlobalVarsMain, s *WeatherDat
 			T = 1
 			yrz = yrz + 1
 		}
-		if d.datetime.YearDay() != T {
+		// the day counter restarts on 1 January: days missing at the end of a year, or whole years, only show in the date
+		if d.datetime.YearDay() != T || (!lastDate.IsZero() && !d.datetime.Equal(lastDate.AddDate(0, 0, 1))) {
 			return fmt.Errorf("%s Failed to parse file: %s, error: missing days", g.LOGID, VWDAT)
 		}
+		lastDate = d.datetime
 		if yrz > len(s.JAR) {
 			yrz--
 			break
